@@ -244,6 +244,60 @@ theorem C11_partitions_push_number_dependent_counterexample :
     numberedOut f (selectParts parts [2]) 0 ≠ numberedOut f parts 2 := by
   decide
 
+/-- **Per-partition arguments travel with the selection** (`BlockwiseDep`: resample bin edges).  When the
+    selection is applied to the argument list as well (what `Partitions._simplify_down` does), output `j` of the
+    pushed plan is output `P[j]` of the operation, for every operation `g`, argument list, frame and in-range
+    selection — repeated and reordered selections included. -/
+theorem C11_partitions_push_blockwisedep (g : Nat → List Row → List Row) (args : List Nat) (parts : List (List Row))
+    (P sel : List Nat) (hsel : selectArgs args P = some sel) (j : Nat) (hj : j < P.length) :
+    depOut g sel (selectParts parts P) j = depOut g args parts P[j] := by
+  have key : ∀ (P sel : List Nat), selectArgs args P = some sel → ∀ j (hj : j < P.length),
+      sel.getD j 0 = args.getD P[j] 0 := by
+    intro P
+    induction P with
+    | nil => intro sel _ j hj; cases hj
+    | cons p t ih =>
+      intro sel hs j hj
+      simp only [selectArgs] at hs
+      cases ha : args[p]? with
+      | none => simp [ha] at hs
+      | some a =>
+        cases hr : selectArgs args t with
+        | none => simp [ha, hr] at hs
+        | some r =>
+          simp only [ha, hr, Option.some.injEq] at hs
+          subst hs
+          cases j with
+          | zero => simp [List.getD, ha]
+          | succ j =>
+            have := ih r hr j (by simpa using hj)
+            simpa [List.getD] using this
+  unfold depOut
+  rw [key P sel hsel j hj]
+  simp [selectParts, hj]
+
+/-- the selection of the arguments succeeds exactly for in-range selections and has the selection's length -/
+theorem C11_select_args_total (args P : List Nat) (h : ∀ p ∈ P, p < args.length) :
+    ∃ sel, selectArgs args P = some sel ∧ sel.length = P.length := by
+  induction P with
+  | nil => exact ⟨[], rfl, rfl⟩
+  | cons p t ih =>
+    obtain ⟨r, hr, hl⟩ := ih (fun q hq => h q (List.mem_cons_of_mem _ hq))
+    have hp : p < args.length := h p (by simp)
+    refine ⟨args[p] :: r, ?_, by simp [hl]⟩
+    simp [selectArgs, hr, hp]
+
+/-- … while passing the argument list on UNCHANGED (the defect fixed as D113) gives partition `j` the argument of
+    partition `j` instead of `P[j]`: `resample(...).sum().partitions[[1]]` aggregated partition 1 into the bins
+    of partition 0. -/
+theorem C11_partitions_push_blockwisedep_unselected_counterexample :
+    let g : Nat → List Row → List Row := fun a x => x.map (fun r => ({ r with tgt := a } : Row))
+    let parts : List (List Row) := [[⟨0, 0, 10⟩], [⟨1, 0, 11⟩]]
+    depOut g [7, 8] (selectParts parts [1]) 0 ≠ depOut g [7, 8] parts 1 := by
+  decide
+
+example : selectArgs [7, 8, 9] [2, 0, 0] = some [9, 7, 7] ∧ selectArgs [7, 8] [2] = none := by decide
+
 /-- the guard forbids the push exactly for the structural exceptions and the number-dependent classes -/
 theorem C11_partitions_push_guard (structural numberDependent : Bool) :
     partitionsPushAllowed structural numberDependent = true ↔ structural = false ∧ numberDependent = false := by
